@@ -11,6 +11,7 @@ WHICH = {
     "C08": (["activation"], ["C08"]),
     "C09": (["activation"], ["C09"]),
     "C11": (["activation"], ["C11", "C16"]),
+    "C10": (["activation"], ["C10"]),
     "C17": (["sampling", "motion"], ["C17"]),
 }
 
